@@ -395,7 +395,9 @@ def run_check(prop, tier, seed, nshards):
         for k, v in s["classes"].items():
             classes[k] = classes.get(k, 0) + v
         for k, v in s["extra"].items():
-            if isinstance(v, (int, float)) and not isinstance(v, bool):
+            if k.startswith("max_") and isinstance(v, (int, float)):
+                extra[k] = max(extra.get(k, 0), v)
+            elif isinstance(v, (int, float)) and not isinstance(v, bool):
                 extra[k] = extra.get(k, 0) + v
             else:
                 extra.setdefault(k, v)
